@@ -121,6 +121,17 @@ class ScipyGlobalOpt(BaseOptimizationLibrary):
         ),
     }
 
+    __iter_callback_is_listening: bool = False
+    """Whether this execution has attached :meth:`._iter_callback` to the database."""
+
+    def _clear_listeners(self, problem: OptimizationProblem) -> None:
+        super()._clear_listeners(problem)
+        if self.__iter_callback_is_listening:
+            problem.database.clear_listeners(
+                new_iter_listeners=(self._iter_callback,), store_listeners=None
+            )
+            self.__iter_callback_is_listening = False
+
     def _iter_callback(self, x_vect: InputType) -> None:
         """Call the objective and constraints functions.
 
@@ -156,8 +167,10 @@ class ScipyGlobalOpt(BaseOptimizationLibrary):
         # call the objective very often when the problem
         # is very constrained (Power2) and OptProblem may fail
         # to detect the optimum.
-        if problem.constraints:
-            problem.add_listener(self._iter_callback)
+        if problem.constraints and problem.database.add_new_iter_listener(
+            self._iter_callback
+        ):
+            self.__iter_callback_is_listening = True
 
         # Filter settings to get only the ones of the global optimizer
         settings_ = self._filter_settings(settings, BaseOptimizerSettings)
